@@ -1,6 +1,7 @@
 #!/bin/bash
 # Re-run every registered quick check on /repo's current tree, sequentially, and keep the logs; the committed evidence files come from these runs.
 cd /verif
+mkdir -p /var/tmp/probe; exec 9>/var/tmp/probe/repo.lock; flock 9   # seeded-change runs patch /repo under the same lock
 mkdir -p /var/tmp/probe/sweep
 for p in "$@"; do
   VERIF_SEED=1 timeout 3500 ./check $p --tier quick > /var/tmp/probe/sweep/$p.log 2>&1
